@@ -640,6 +640,10 @@ func (c *handlerCtx) handleReply() {
 	}()
 	if c.callCmd.stat.OK() {
 		stat := c.input.Status()
+		if stat.OK() && !c.stat.OK() {
+			// the reply could not be read or its body could not be decoded
+			stat = c.stat
+		}
 		if stat.OK() {
 			stat = c.pluginContainer.postReadReplyBody(c)
 		}
